@@ -10,8 +10,21 @@
 //!   update k k k…                      rebuild with the new key sequence (signal write + effects for `initf`)
 //!   trans  <pre> <post> <bs> k… / k…   fresh `init` then `update`; prints the update's line
 //!   transf <pre> <post> <bs> k… / k…   fresh `initf` then `update`
+//!   inits <pre> <post> <bs> k k k…     `<ForEnumerate each=move || store.rows() key=|row| row.id().get() …>` over a keyed
+//!                                      store field (reactive_stores `KeyedSubfield`); row k shows its label (k*10 at first);
+//!                                      `update` writes the new rows through `store.rows().write()`; extra field `l=<k=text…>`
+//!   updset k k k… / updroot k k k…     keyed store field only: the same update through `store.rows().set(..)` / `store.set(..)`
+//!   label <k> <v>                      keyed store field only: `AtKeyed::new(store.rows(), k).label().set(v)`
+//!   initu <pre> <post> <bs> k k k…     keyed(): build only (parent = None): the list is not in the DOM yet
 //!   sib                                KeyedState::insert_before_this(<fresh element>)      (keyed() only)
-//!   remount <j>|e                      KeyedState::unmount, then mount before the j-th following sibling / at the end
+//!   unmount                            KeyedState::unmount
+//!   mount <j>|e                        KeyedState::mount(parent, before the j-th following sibling | None)
+//!   remount <j>|e                      unmount, then mount
+//!   inner <k> i i i…                   shape `n` only: rebuild the inner keyed list of the outer item k (prints the
+//!                                      inner list's view_fn / unmount / set_index logs in b / u / s)
+//! <bs>: 1 2 3 = tuples of 1..3 elements; t te et = text nodes; u ue eu oe = `()` / `None` members (placeholders);
+//!       v2 v0 = a `Vec` fragment (items + its marker); k2 k0 = a keyed list as the item (items + its marker);
+//!       n = a keyed list [0, 1] as the item whose inner list is updated by `inner` (nodes `k.i:0`, marker `k.M`)
 //! Output of every list op:
 //!   <children of the parent> ; e=<KeyedState::elements()> ; b=<k@i…> ; u=<k…> ; s=<k>i…> ## ok | fail <class>
 //! (`e=-` and `i=<k=i…>` — the index each mounted item was last told — instead of `s=` for `<ForEnumerate>`).
@@ -40,9 +53,17 @@ struct Log {
     set_index: Vec<(Key, usize)>,
     /// nodes of the items built since the log was taken
     new_nodes: Vec<(Key, Vec<usize>)>,
+    /// nested lists: inner items built `(outer, inner, index, node)`, inner markers `(outer, node)`,
+    /// inner unmounts and set_index calls
+    inner_builds: Vec<(Key, Key, usize, usize)>,
+    inner_markers: Vec<(Key, usize)>,
+    inner_unmounts: Vec<(Key, Key)>,
+    inner_set_index: Vec<(Key, Key, usize)>,
 }
 thread_local! {
     static LOG: RefCell<Log> = RefCell::new(Log::default());
+    /// kinds of the nodes of one item of the current case (to put the node ids in DOM order)
+    static KINDS: RefCell<Vec<char>> = RefCell::new(vec![]);
 }
 fn take_log() -> Log {
     LOG.with(|l| std::mem::take(&mut *l.borrow_mut()))
@@ -61,8 +82,26 @@ struct TrackedState<S> {
 impl<V: Render> Render for Tracked<V> {
     type State = TrackedState<V::State>;
     fn build(self) -> Self::State {
+        // node ids are creation indices: the top-level nodes of the item are the parentless nodes
+        // created by its `build` (works for text nodes, placeholders and nested lists too)
+        let first = nd::nodes_created();
         let inner = self.inner.build();
-        let ids = inner.elements().iter().map(|e| nd::node_id(e)).collect();
+        let created: Vec<usize> = (first..nd::nodes_created())
+            .filter(|id| nd::node_by_id(*id).is_some_and(|n| nd::parent(&n).is_none()))
+            .collect();
+        // DOM order: element slots in `elements()` order, the other slots in creation order
+        let els: Vec<usize> =
+            inner.elements().iter().map(|e| nd::node_id(e)).filter(|id| created.contains(id)).collect();
+        let mut others = created.iter().filter(|id| !els.contains(id));
+        let mut els_it = els.iter();
+        let kinds = KINDS.with(|k| k.borrow().clone());
+        let mut ids: Vec<usize> = kinds
+            .iter()
+            .filter_map(|k| if *k == 'e' { els_it.next().copied() } else { others.next().copied() })
+            .collect();
+        if ids.len() != created.len() {
+            ids = created;
+        }
         LOG.with(|l| l.borrow_mut().new_nodes.push((self.key, ids)));
         TrackedState { key: self.key, inner }
     }
@@ -90,15 +129,30 @@ impl<S: Mountable> Mountable for TrackedState<S> {
 
 trait KList {
     fn update(&mut self, keys: Vec<Key>);
+    /// keyed store field: other ways of writing the rows (1 = `store.rows().set(..)`, 2 = `store.set(..)`)
+    fn update_how(&mut self, keys: Vec<Key>, _how: u8) {
+        self.update(keys)
+    }
     fn elements(&self) -> Option<Vec<usize>>;
     fn sib(&mut self, _child: &mut dyn Mountable) -> Option<bool> {
         None
     }
-    fn remount(&mut self, _parent: &nd::Element, _marker: Option<&nd::Node>) -> bool {
+    fn unmount(&mut self) -> bool {
+        false
+    }
+    fn mount(&mut self, _parent: &nd::Element, _marker: Option<&nd::Node>) -> bool {
         false
     }
     /// index each item was last told (ForEnumerate)
     fn told(&self) -> Option<Vec<(Key, usize)>> {
+        None
+    }
+    /// keyed store field: write one row's label through `AtKeyed`
+    fn set_label(&mut self, _k: Key, _v: u32) -> bool {
+        false
+    }
+    /// keyed store field: the rows' labels in the store
+    fn labels(&self) -> Option<Vec<(Key, u32)>> {
         None
     }
 }
@@ -133,20 +187,147 @@ impl<V: Render, F: Fn(Key) -> V + Clone + 'static> KList for Holder<V, F> {
     fn sib(&mut self, child: &mut dyn Mountable) -> Option<bool> {
         Some(self.state.insert_before_this(child))
     }
-    fn remount(&mut self, parent: &nd::Element, marker: Option<&nd::Node>) -> bool {
+    fn unmount(&mut self) -> bool {
         self.state.unmount();
+        true
+    }
+    fn mount(&mut self, parent: &nd::Element, marker: Option<&nd::Node>) -> bool {
         self.state.mount(parent, marker);
         true
     }
 }
 fn new_keyed<V: Render + 'static, F: Fn(Key) -> V + Clone + 'static>(
-    root: &nd::Element,
+    root: Option<&nd::Element>,
     keys: Vec<Key>,
     mk: F,
 ) -> Box<dyn KList> {
     let mut state = list_view(keys, mk.clone()).build();
-    state.mount(root, None);
+    if let Some(root) = root {
+        state.mount(root, None);
+    }
     Box::new(Holder { state, mk })
+}
+
+// ---- a keyed list as an item, reachable from outside so that it can be updated on its own
+type InnerState = KeyedState<Key, SetIndex, InnerItem>;
+thread_local! {
+    static NESTED: RefCell<HashMap<Key, std::rc::Rc<RefCell<InnerState>>>> = RefCell::new(HashMap::new());
+}
+struct InnerItem {
+    outer: Key,
+    key: Key,
+    index: usize,
+}
+struct InnerItemState {
+    outer: Key,
+    key: Key,
+    el: <tachys::html::element::HtmlElement<tachys::html::element::Li, (), ()> as Render>::State,
+}
+impl Render for InnerItem {
+    type State = InnerItemState;
+    fn build(self) -> Self::State {
+        let el = li().build();
+        let id = nd::node_id(&el.elements()[0]);
+        LOG.with(|l| l.borrow_mut().inner_builds.push((self.outer, self.key, self.index, id)));
+        InnerItemState { outer: self.outer, key: self.key, el }
+    }
+    fn rebuild(self, _state: &mut Self::State) {}
+}
+impl Mountable for InnerItemState {
+    fn unmount(&mut self) {
+        LOG.with(|l| l.borrow_mut().inner_unmounts.push((self.outer, self.key)));
+        self.el.unmount()
+    }
+    fn mount(&mut self, parent: &tachys::renderer::types::Element, marker: Option<&tachys::renderer::types::Node>) {
+        self.el.mount(parent, marker)
+    }
+    fn insert_before_this(&self, child: &mut dyn Mountable) -> bool {
+        self.el.insert_before_this(child)
+    }
+    fn elements(&self) -> Vec<tachys::renderer::types::Element> {
+        self.el.elements()
+    }
+}
+fn inner_view(outer: Key, keys: Vec<Key>) -> impl Render<State = InnerState> {
+    keyed(
+        keys,
+        |k| *k,
+        move |index, k: Key| {
+            let set_index: SetIndex =
+                Box::new(move |i| LOG.with(|l| l.borrow_mut().inner_set_index.push((outer, k, i))));
+            (set_index, InnerItem { outer, key: k, index })
+        },
+    )
+}
+/// the outer item: an inner keyed list `[0, 1]`, shared with the harness
+struct SharedList {
+    outer: Key,
+}
+impl Render for SharedList {
+    type State = std::rc::Rc<RefCell<InnerState>>;
+    fn build(self) -> Self::State {
+        let first = nd::nodes_created();
+        let st = inner_view(self.outer, vec![0, 1]).build();
+        // the parentless node that is not an inner item is the inner list's marker
+        let items: Vec<usize> = st.elements().iter().map(|e| nd::node_id(e)).collect();
+        if let Some(m) = (first..nd::nodes_created()).find(|id| {
+            !items.contains(id) && nd::node_by_id(*id).is_some_and(|n| nd::parent(&n).is_none())
+        }) {
+            LOG.with(|l| l.borrow_mut().inner_markers.push((self.outer, m)));
+        }
+        let rc = std::rc::Rc::new(RefCell::new(st));
+        NESTED.with(|n| n.borrow_mut().insert(self.outer, rc.clone()));
+        rc
+    }
+    fn rebuild(self, _state: &mut Self::State) {}
+}
+
+/// item shapes: token of the op grammar -> kinds of the nodes of one item, in order
+/// (`e` element, `t` text node, `c` comment / placeholder)
+const ITEM_SHAPES: &[(&str, &str)] = &[
+    ("1", "e"),    // <li>
+    ("2", "ee"),   // (<li>, <span>)
+    ("3", "eee"),  // (<li>, <span>, <li>)
+    ("t", "t"),    // "x"
+    ("te", "te"),  // ("x", <li>)
+    ("et", "et"),  // (<li>, "x")
+    ("u", "c"),    // ()
+    ("ue", "ce"),  // ((), <li>)
+    ("eu", "ec"),  // (<li>, ())
+    ("oe", "ce"),  // (None::<li>, <li>)
+    ("v2", "eec"), // vec![<li>, <li>]  (a fragment: its items, then its own marker)
+    ("v0", "c"),   // Vec::new()
+    ("k2", "eec"), // keyed([0, 1], ..<li>)  (a keyed list as an item)
+    ("k0", "c"),   // keyed([], ..)
+    ("n", "eec"),  // a keyed list [0, 1] as the item that is updated on its own (`inner` op)
+];
+fn shape_kinds(tok: &str) -> Option<&'static str> {
+    ITEM_SHAPES.iter().find(|s| s.0 == tok).map(|s| s.1)
+}
+
+fn nested(keys: Vec<Key>) -> impl Render {
+    keyed(keys, |k| *k, |_, _k: Key| (|_: usize| (), li()))
+}
+
+fn new_shape(root: Option<&nd::Element>, keys: Vec<Key>, tok: &str) -> Option<Box<dyn KList>> {
+    Some(match tok {
+        "1" => new_keyed(root, keys, |_k| li()),
+        "2" => new_keyed(root, keys, |_k| (li(), span())),
+        "3" => new_keyed(root, keys, |_k| (li(), span(), li())),
+        "t" => new_keyed(root, keys, |_k| "x"),
+        "te" => new_keyed(root, keys, |_k| ("x", li())),
+        "et" => new_keyed(root, keys, |_k| (li(), "x")),
+        "u" => new_keyed(root, keys, |_k| ()),
+        "ue" => new_keyed(root, keys, |_k| ((), li())),
+        "eu" => new_keyed(root, keys, |_k| (li(), ())),
+        "oe" => new_keyed(root, keys, |_k| (Some(li()).filter(|_| false), li())),
+        "v2" => new_keyed(root, keys, |_k| vec![li(), li()]),
+        "v0" => new_keyed(root, keys, |_k| vec![li()].into_iter().filter(|_| false).collect::<Vec<_>>()),
+        "k2" => new_keyed(root, keys, |_k| nested(vec![0, 1])),
+        "k0" => new_keyed(root, keys, |_k| nested(vec![])),
+        "n" => new_keyed(root, keys, |k| SharedList { outer: k }),
+        _ => return None,
+    })
 }
 
 // ---- leptos <ForEnumerate>
@@ -216,21 +397,137 @@ mod forlist {
     }
 }
 
+// ---- leptos <ForEnumerate> over a keyed store field (`reactive_stores::KeyedSubfield`)
+mod storelist {
+    use super::{Key, KList, LOG};
+    use leptos::prelude::*;
+    use reactive_stores::{AtKeyed, Field, Store};
+    use std::cell::RefCell;
+    use std::collections::HashMap;
+    use tachys::renderer::native_dom as nd;
+
+    #[derive(Store, Clone, Debug)]
+    pub struct Data {
+        #[store(key: u32 = |row| row.id)]
+        rows: Vec<Row>,
+    }
+    #[derive(Store, Clone, Debug)]
+    pub struct Row {
+        id: u32,
+        label: u32,
+    }
+
+    thread_local! {
+        static INDEX: RefCell<HashMap<Key, ReadSignal<usize>>> = RefCell::new(HashMap::new());
+    }
+
+    pub struct StoreList {
+        store: Store<Data>,
+        _owner: Owner,
+        _handle: Box<dyn std::any::Any>,
+    }
+    impl KList for StoreList {
+        fn update(&mut self, keys: Vec<Key>) {
+            self.update_how(keys, 0)
+        }
+        fn update_how(&mut self, keys: Vec<Key>, how: u8) {
+            let old: Vec<Row> = self.store.rows().get_untracked();
+            let new: Vec<Row> = keys
+                .iter()
+                .map(|k| old.iter().find(|r| r.id == *k).cloned().unwrap_or(Row { id: *k, label: k * 10 }))
+                .collect();
+            match how {
+                // through the keyed write guard, as an application does (`store.rows().write()`)
+                0 => *self.store.rows().write() = new,
+                1 => self.store.rows().set(new),
+                _ => self.store.set(Data { rows: new }),
+            }
+            any_spawner::Executor::poll_local();
+        }
+        fn elements(&self) -> Option<Vec<usize>> {
+            None
+        }
+        fn told(&self) -> Option<Vec<(Key, usize)>> {
+            let keys: Vec<Key> = self.store.rows().get_untracked().iter().map(|r| r.id).collect();
+            Some(INDEX.with(|m| {
+                let m = m.borrow();
+                keys.iter().map(|k| (*k, m.get(k).map(|s| s.get_untracked()).unwrap_or(usize::MAX))).collect()
+            }))
+        }
+        fn set_label(&mut self, k: Key, v: u32) -> bool {
+            if !self.store.rows().get_untracked().iter().any(|r| r.id == k) {
+                return false;
+            }
+            AtKeyed::new(self.store.rows(), k).label().set(v);
+            any_spawner::Executor::poll_local();
+            true
+        }
+        fn labels(&self) -> Option<Vec<(Key, u32)>> {
+            Some(self.store.rows().get_untracked().iter().map(|r| (r.id, r.label)).collect())
+        }
+    }
+
+    fn item(index: ReadSignal<usize>, row: Field<Row>, bs: usize) -> impl IntoView {
+        let k = row.id().get_untracked();
+        LOG.with(|l| l.borrow_mut().builds.push((k, index.get_untracked())));
+        INDEX.with(|m| m.borrow_mut().insert(k, index));
+        on_cleanup(move || LOG.with(|l| l.borrow_mut().unmounts.push(k)));
+        let first = leptos::html::li()
+            .attr("data-k", k.to_string())
+            .attr("data-j", "0")
+            .child(move || row.label().get().to_string());
+        let el = move |j: usize| leptos::html::li().attr("data-k", k.to_string()).attr("data-j", j.to_string());
+        match bs {
+            1 => leptos::either::EitherOf3::A(first),
+            2 => leptos::either::EitherOf3::B((first, el(1))),
+            _ => leptos::either::EitherOf3::C((first, el(1), el(2))),
+        }
+    }
+
+    pub fn new(root: &nd::Element, keys: Vec<Key>, bs: usize) -> Box<dyn KList> {
+        let _ = any_spawner::Executor::init_futures_executor();
+        INDEX.with(|m| m.borrow_mut().clear());
+        let owner = Owner::new();
+        let (store, handle) = owner.with(|| {
+            let store = Store::new(Data { rows: keys.iter().map(|k| Row { id: *k, label: k * 10 }).collect() });
+            let handle = leptos::mount::mount_to(root.clone(), move || {
+                view! {
+                    <ForEnumerate
+                        each=move || store.rows()
+                        key=|row| row.id().get()
+                        children=move |index, row| item(index, row.into(), bs)
+                    />
+                }
+            });
+            (store, handle)
+        });
+        any_spawner::Executor::poll_local();
+        Box::new(StoreList { store, _owner: owner, _handle: Box::new(handle) })
+    }
+}
+
 // ------------------------------------------------------------------ one case
 
 struct Session {
     root: nd::Element,
     list: Box<dyn KList>,
-    bs: usize,
+    /// kinds of the nodes of one item
+    kinds: Vec<char>,
+    /// the list is mounted (its nodes are expected among the parent's children)
+    mounted: bool,
     keys: Vec<Key>,
     pre: Vec<(usize, String)>,
     post: Vec<(usize, String)>,
     nsib: usize,
-    /// node id -> (key, j) for every item node ever built
-    names: HashMap<usize, (Key, usize)>,
-    /// key -> node ids of its current incarnation
+    /// node id -> name, for every item node ever built
+    names: HashMap<usize, String>,
+    /// key -> node ids of its current incarnation, in DOM order
     nodes_of: HashMap<Key, Vec<usize>>,
     is_for: bool,
+    /// shape `n`: the inner lists (keys, node of every inner item, marker)
+    inner_keys: HashMap<Key, Vec<Key>>,
+    inner_node: HashMap<(Key, Key), usize>,
+    inner_marker: HashMap<Key, usize>,
 }
 
 fn sibling(root: &nd::Element, tag: &str) -> usize {
@@ -240,25 +537,32 @@ fn sibling(root: &nd::Element, tag: &str) -> usize {
 }
 
 impl Session {
-    fn start(pre: usize, post: usize, bs: usize, keys: Vec<Key>, is_for: bool) -> (Session, String) {
+    /// `mode`: "init" (keyed, mounted), "initu" (keyed, built but not mounted), "initf" (ForEnumerate)
+    fn start(pre: usize, post: usize, shape: &str, keys: Vec<Key>, mode: &str) -> Option<(Session, String)> {
+        let is_for = mode == "initf" || mode == "inits";
+        let kinds: Vec<char> = shape_kinds(shape)?.chars().collect();
+        if is_for && !matches!(shape, "1" | "2" | "3") {
+            return None;
+        }
         nd::reset();
         let _ = take_log();
+        KINDS.with(|k| *k.borrow_mut() = kinds.clone());
+        NESTED.with(|n| n.borrow_mut().clear());
         let root = nd::create_root("ul");
         let pre: Vec<_> = (0..pre).map(|i| (sibling(&root, "p"), format!("P{i}"))).collect();
-        let list: Box<dyn KList> = if is_for {
-            forlist::new(&root, keys.clone(), bs)
+        let list: Box<dyn KList> = if mode == "inits" {
+            storelist::new(&root, keys.clone(), kinds.len())
+        } else if is_for {
+            forlist::new(&root, keys.clone(), kinds.len())
         } else {
-            match bs {
-                1 => new_keyed(&root, keys.clone(), |_k| li()),
-                2 => new_keyed(&root, keys.clone(), |_k| (li(), span())),
-                _ => new_keyed(&root, keys.clone(), |_k| (li(), span(), li())),
-            }
+            new_shape((mode == "init").then_some(&root), keys.clone(), shape)?
         };
         let post: Vec<_> = (0..post).map(|i| (sibling(&root, "q"), format!("Q{i}"))).collect();
         let mut s = Session {
             root,
             list,
-            bs,
+            kinds,
+            mounted: mode != "initu",
             keys: vec![],
             pre,
             post,
@@ -266,7 +570,11 @@ impl Session {
             names: HashMap::new(),
             nodes_of: HashMap::new(),
             is_for,
+            inner_keys: HashMap::new(),
+            inner_node: HashMap::new(),
+            inner_marker: HashMap::new(),
         };
+
         let log = take_log();
         s.register(&log);
         let mut v = None;
@@ -276,7 +584,7 @@ impl Session {
         }
         s.keys = keys;
         let line = s.finish(&log, v);
-        (s, line)
+        Some((s, line))
     }
 
     /// learn the nodes of freshly built items
@@ -290,7 +598,7 @@ impl Session {
                 let attrs = nd::attributes(&n);
                 let get = |name: &str| attrs.iter().find(|a| a.0 == name).and_then(|a| a.1.parse::<usize>().ok());
                 if let (Some(k), Some(j)) = (get("data-k"), get("data-j")) {
-                    self.names.insert(id, (k as Key, j));
+                    self.names.insert(id, format!("{k}:{j}"));
                     if j == 0 {
                         self.nodes_of.insert(k as Key, vec![]);
                     }
@@ -300,10 +608,29 @@ impl Session {
         } else {
             for (k, ids) in &log.new_nodes {
                 for (j, id) in ids.iter().enumerate() {
-                    self.names.insert(*id, (*k, j));
+                    self.names.insert(*id, format!("{k}:{j}"));
                 }
                 self.nodes_of.insert(*k, ids.clone());
             }
+            // nested lists: name the inner nodes, remember the inner lists of the new outer items
+            for (o, m) in &log.inner_markers {
+                self.names.insert(*m, format!("{o}.M"));
+                self.inner_marker.insert(*o, *m);
+                self.inner_keys.insert(*o, vec![0, 1]);
+            }
+            for (o, i, _, node) in &log.inner_builds {
+                self.names.insert(*node, format!("{o}.{i}:0"));
+                self.inner_node.insert((*o, *i), *node);
+            }
+        }
+    }
+
+    /// shape `n`: the block of an outer item = its inner items in order, then the inner marker
+    fn refresh_nested(&mut self, o: Key) {
+        if let (Some(ks), Some(m)) = (self.inner_keys.get(&o), self.inner_marker.get(&o)) {
+            let mut ids: Vec<usize> = ks.iter().filter_map(|i| self.inner_node.get(&(o, *i)).copied()).collect();
+            ids.push(*m);
+            self.nodes_of.insert(o, ids);
         }
     }
 
@@ -312,8 +639,8 @@ impl Session {
         if let Some((_, s)) = self.pre.iter().chain(self.post.iter()).find(|p| p.0 == id) {
             return s.clone();
         }
-        if let Some((k, j)) = self.names.get(&id) {
-            return format!("{k}:{j}");
+        if let Some(name) = self.names.get(&id) {
+            return name.clone();
         }
         if n.node_type() == 8 {
             return "M".into();
@@ -327,12 +654,14 @@ impl Session {
 
     fn expected_dom(&self) -> Vec<String> {
         let mut v: Vec<String> = self.pre.iter().map(|p| p.1.clone()).collect();
-        for k in &self.keys {
-            for j in 0..self.bs {
-                v.push(format!("{k}:{j}"));
+        if self.mounted {
+            for k in &self.keys {
+                for id in self.nodes_of.get(k).map(|v| v.as_slice()).unwrap_or(&[]) {
+                    v.push(self.names.get(id).cloned().unwrap_or("?".into()));
+                }
             }
+            v.push("M".into());
         }
-        v.push("M".into());
         v.extend(self.post.iter().map(|p| p.1.clone()));
         v
     }
@@ -344,9 +673,7 @@ impl Session {
         let join = |xs: Vec<String>| if xs.is_empty() { "-".to_string() } else { xs.join(",") };
         let els = match self.list.elements() {
             Some(ids) => join(
-                ids.iter()
-                    .map(|id| self.names.get(id).map(|(k, j)| format!("{k}:{j}")).unwrap_or("?".into()))
-                    .collect(),
+                ids.iter().map(|id| self.names.get(id).cloned().unwrap_or("?".into())).collect(),
             ),
             None => "-".into(),
         };
@@ -362,6 +689,28 @@ impl Session {
         } else {
             let _ = write!(out, " ; s={}", join(log.set_index.iter().map(|(k, i)| format!("{k}>{i}")).collect()));
         }
+        if let Some(labels) = self.list.labels() {
+            // the text each row shows (first node of the row) against the label the store holds for its key
+            let shown: Vec<String> = self
+                .keys
+                .iter()
+                .map(|k| {
+                    let text = self
+                        .nodes_of
+                        .get(k)
+                        .and_then(|ids| ids.first())
+                        .and_then(|id| nd::node_by_id(*id))
+                        .and_then(|n| n.text_content())
+                        .unwrap_or("?".into());
+                    format!("{k}={text}")
+                })
+                .collect();
+            let _ = write!(out, " ; l={}", join(shown.clone()));
+            let want: Vec<String> = labels.iter().map(|(k, l)| format!("{k}={l}")).collect();
+            if v.is_none() && shown != want {
+                v = Some("label");
+            }
+        }
         let errs = nd::take_errors();
         if v.is_none() && !errs.is_empty() {
             v = Some("dom-error");
@@ -369,8 +718,10 @@ impl Session {
         if v.is_none() && self.list.elements().is_some() && els != {
             let mut e = vec![];
             for k in &self.keys {
-                for j in 0..self.bs {
-                    e.push(format!("{k}:{j}"));
+                for id in self.nodes_of.get(k).map(|v| v.as_slice()).unwrap_or(&[]) {
+                    if nd::node_by_id(*id).is_some_and(|n| n.node_type() == 1) {
+                        e.push(self.names.get(id).cloned().unwrap_or("?".into()));
+                    }
                 }
             }
             join(e)
@@ -387,10 +738,14 @@ impl Session {
     }
 
     fn update(&mut self, to: Vec<Key>) -> String {
+        self.update_how(to, 0)
+    }
+
+    fn update_how(&mut self, to: Vec<Key>, how: u8) -> String {
         let from = std::mem::take(&mut self.keys);
         let old_nodes = self.nodes_of.clone();
         let _ = take_log();
-        self.list.update(to.clone());
+        self.list.update_how(to.clone(), how);
         let log = take_log();
         self.register(&log);
         self.keys = to.clone();
@@ -411,7 +766,9 @@ impl Session {
         if v.is_none() {
             for k in to.iter().filter(|k| from.contains(k)) {
                 let before = old_nodes.get(k);
-                if before != self.nodes_of.get(k) || before.map_or(true, |ids| ids.iter().any(|id| !kids.contains(id))) {
+                if before != self.nodes_of.get(k)
+                    || before.map_or(true, |ids| self.mounted && ids.iter().any(|id| !kids.contains(id)))
+                {
                     v = Some("identity");
                 }
             }
@@ -442,27 +799,113 @@ impl Session {
         self.finish(&log, v)
     }
 
+    /// shape `n`: rebuild the inner list of the outer item `o` with the inner keys `to`
+    fn inner(&mut self, o: Key, to: Vec<Key>) -> String {
+        let Some(rc) = NESTED.with(|n| n.borrow().get(&o).cloned()) else { return "bad-op".into() };
+        if !self.keys.contains(&o) {
+            return "bad-op".into();
+        }
+        let from = self.inner_keys.get(&o).cloned().unwrap_or_default();
+        let old_node = self.inner_node.clone();
+        let _ = take_log();
+        inner_view(o, to.clone()).rebuild(&mut rc.borrow_mut());
+        let log = take_log();
+        self.register(&log);
+        self.inner_keys.insert(o, to.clone());
+        self.refresh_nested(o);
+        let kids: Vec<usize> = nd::children(&self.root).iter().map(|n| nd::node_id(n)).collect();
+        let sorted = |mut v: Vec<Key>| {
+            v.sort();
+            v
+        };
+        let mut v = None;
+        let built: Vec<Key> = log.inner_builds.iter().map(|b| b.1).collect();
+        if sorted(built) != sorted(to.iter().filter(|k| !from.contains(k)).cloned().collect())
+            || log.inner_builds.iter().any(|(_, i, idx, _)| to.get(*idx) != Some(i))
+        {
+            v = Some("builds");
+        }
+        if v.is_none() {
+            for i in to.iter().filter(|i| from.contains(i)) {
+                if old_node.get(&(o, *i)) != self.inner_node.get(&(o, *i)) {
+                    v = Some("identity");
+                }
+            }
+        }
+        if v.is_none() {
+            let gone: Vec<Key> = from.iter().filter(|k| !to.contains(k)).cloned().collect();
+            if sorted(log.inner_unmounts.iter().map(|u| u.1).collect()) != sorted(gone.clone())
+                || gone.iter().any(|i| old_node.get(&(o, *i)).map_or(true, |id| kids.contains(id)))
+            {
+                v = Some("unmounts");
+            }
+        }
+        if v.is_none() {
+            for (fin, i) in to.iter().enumerate() {
+                if let Some(old) = from.iter().position(|x| x == i) {
+                    let last = log.inner_set_index.iter().rev().find(|c| c.1 == *i).map(|c| c.2);
+                    if (old != fin && last.is_none()) || last.map_or(false, |l| l != fin) {
+                        v = Some("set-index");
+                    }
+                }
+            }
+        }
+        // print the inner list's logs in the b / u / s fields
+        let shown = Log {
+            builds: log.inner_builds.iter().map(|b| (b.1, b.2)).collect(),
+            unmounts: log.inner_unmounts.iter().map(|u| u.1).collect(),
+            set_index: log.inner_set_index.iter().map(|c| (c.1, c.2)).collect(),
+            ..Default::default()
+        };
+        self.finish(&shown, v)
+    }
+
+    fn label(&mut self, k: Key, v: u32) -> String {
+        let _ = take_log();
+        if !self.list.set_label(k, v) {
+            return "bad-op".into();
+        }
+        let log = take_log();
+        // a label write rebuilds nothing
+        let verdict = if !log.builds.is_empty() || !log.unmounts.is_empty() { Some("builds") } else { None };
+        self.finish(&log, verdict)
+    }
+
     fn sib(&mut self) -> String {
         let _ = take_log();
         let mut st = li().build();
         let id = nd::node_id(&st.elements()[0]);
         let Some(ok) = self.list.sib(&mut st) else { return "bad-op".into() };
-        self.pre.push((id, format!("S{}", self.nsib)));
-        self.nsib += 1;
+        // a list that is not in the DOM answers `false` and inserts nothing
+        if self.mounted {
+            self.pre.push((id, format!("S{}", self.nsib)));
+            self.nsib += 1;
+        }
         std::mem::forget(st);
         let log = take_log();
-        self.finish(&log, if ok { None } else { Some("insert-before-this") })
+        self.finish(&log, if ok == self.mounted { None } else { Some("insert-before-this") })
     }
 
-    fn remount(&mut self, j: usize) -> String {
+    /// `unmount` and / or `mount(parent, anchor = j-th following sibling | None)`
+    fn remount(&mut self, unmount: bool, mount: Option<usize>) -> String {
         let _ = take_log();
-        let marker = self.post.get(j).and_then(|p| nd::node_by_id(p.0));
-        let root = self.root.clone();
-        if !self.list.remount(&root, marker.as_ref()) {
-            return "bad-op".into();
+        if unmount {
+            if !self.list.unmount() {
+                return "bad-op".into();
+            }
+            // all siblings now follow each other; keep them in one list split at the old place
+            self.mounted = false;
         }
-        let moved: Vec<_> = self.post.drain(..j).collect();
-        self.pre.extend(moved);
+        if let Some(j) = mount {
+            let marker = self.post.get(j).and_then(|p| nd::node_by_id(p.0));
+            let root = self.root.clone();
+            if !self.list.mount(&root, marker.as_ref()) {
+                return "bad-op".into();
+            }
+            let moved: Vec<_> = self.post.drain(..j).collect();
+            self.pre.extend(moved);
+            self.mounted = true;
+        }
         let log = take_log();
         self.finish(&log, None)
     }
@@ -476,14 +919,14 @@ fn parse_keys(ws: &[&str]) -> Option<Vec<Key>> {
     (s.len() == ks.len()).then_some(ks)
 }
 
-fn parse_init(ws: &[&str]) -> Option<(usize, usize, usize, Vec<Key>)> {
+fn parse_init<'a>(ws: &[&'a str]) -> Option<(usize, usize, &'a str, Vec<Key>)> {
     if ws.len() < 3 {
         return None;
     }
     let p: usize = ws[0].parse().ok()?;
     let q: usize = ws[1].parse().ok()?;
-    let b: usize = ws[2].parse().ok()?;
-    if b == 0 || b > 3 || p > 64 || q > 64 {
+    let b = ws[2];
+    if shape_kinds(b).is_none() || p > 64 || q > 64 {
         return None;
     }
     Some((p, q, b, parse_keys(&ws[3..])?))
@@ -506,17 +949,32 @@ fn op(sess: &mut Option<Session>, line: &str) -> String {
             *sess = None;
             case_tags(n)
         }
-        [cmd @ ("init" | "initf"), rest @ ..] => match parse_init(rest) {
+        [cmd @ ("init" | "initf" | "initu" | "inits"), rest @ ..] => match parse_init(rest) {
             Some((p, q, b, ks)) => {
                 *sess = None;
-                let (s, line) = Session::start(p, q, b, ks, *cmd == "initf");
-                *sess = Some(s);
-                line
+                match Session::start(p, q, b, ks, cmd) {
+                    Some((s, line)) => {
+                        *sess = Some(s);
+                        line
+                    }
+                    None => "bad-op".into(),
+                }
             }
             None => "bad-op".into(),
         },
-        ["update", rest @ ..] => match (sess.as_mut(), parse_keys(rest)) {
-            (Some(s), Some(ks)) => s.update(ks),
+        [cmd @ ("update" | "updset" | "updroot"), rest @ ..] => match (sess.as_mut(), parse_keys(rest)) {
+            (Some(s), Some(ks)) => {
+                let how = match *cmd {
+                    "update" => 0,
+                    "updset" => 1,
+                    _ => 2,
+                };
+                if how > 0 && s.list.labels().is_none() {
+                    "bad-op".into()
+                } else {
+                    s.update_how(ks, how)
+                }
+            }
             _ => "bad-op".into(),
         },
         [cmd @ ("trans" | "transf"), rest @ ..] => {
@@ -524,10 +982,14 @@ fn op(sess: &mut Option<Session>, line: &str) -> String {
             match (parse_init(&rest[..cut]), parse_keys(&rest[cut + 1..])) {
                 (Some((p, q, b, f)), Some(t)) => {
                     *sess = None;
-                    let (mut s, _) = Session::start(p, q, b, f, *cmd == "transf");
-                    let line = s.update(t);
-                    *sess = Some(s);
-                    line
+                    match Session::start(p, q, b, f, if *cmd == "transf" { "initf" } else { "init" }) {
+                        Some((mut s, _)) => {
+                            let line = s.update(t);
+                            *sess = Some(s);
+                            line
+                        }
+                        None => "bad-op".into(),
+                    }
                 }
                 _ => "bad-op".into(),
             }
@@ -536,14 +998,26 @@ fn op(sess: &mut Option<Session>, line: &str) -> String {
             Some(s) => s.sib(),
             None => "bad-op".into(),
         },
-        ["remount", j] => match sess.as_mut() {
+        [cmd @ ("remount" | "mount"), j] => match sess.as_mut() {
             Some(s) => {
                 let j = if *j == "e" { Some(s.post.len()) } else { j.parse::<usize>().ok() };
                 match j {
-                    Some(j) if j <= s.post.len() => s.remount(j),
+                    Some(j) if j <= s.post.len() => s.remount(*cmd == "remount", Some(j)),
                     _ => "bad-op".into(),
                 }
             }
+            None => "bad-op".into(),
+        },
+        ["inner", o, rest @ ..] => match (sess.as_mut(), o.parse::<Key>().ok(), parse_keys(rest)) {
+            (Some(s), Some(o), Some(ks)) => s.inner(o, ks),
+            _ => "bad-op".into(),
+        },
+        ["label", k, v] => match (sess.as_mut(), k.parse::<Key>().ok(), v.parse::<u32>().ok()) {
+            (Some(s), Some(k), Some(v)) => s.label(k, v),
+            _ => "bad-op".into(),
+        },
+        ["unmount"] => match sess.as_mut() {
+            Some(s) => s.remount(true, None),
             None => "bad-op".into(),
         },
         _ => "bad-op".into(),
@@ -781,46 +1255,124 @@ fn gen(seed: u64, n: usize, path: &str, tier: &str) -> std::io::Result<()> {
         }
     }
     // 2. random histories
+    const FLAT: &[(&str, &str)] = &[
+        ("1", "one-node"), ("1", "one-node"), ("2", "multi-node"), ("3", "multi-node"), ("t", "text"),
+        ("te", "text"), ("et", "text"), ("u", "placeholder"), ("ue", "placeholder"), ("eu", "placeholder"),
+        ("oe", "placeholder"), ("v2", "fragment"), ("v0", "fragment"), ("k2", "nested-static"), ("k0", "nested-static"),
+    ];
     for i in 0..n {
         let alphabet = r.range(3, 12);
-        let (p, q, b) = (r.below(3), r.below(3), r.range(1, 3));
-        let is_for = r.chance(1, 4);
+        let (p, q) = (r.below(3), r.below(3));
+        // 0 keyed() with any item shape, 1 nested lists updated on their own, 2 <ForEnumerate>, 3 keyed store field
+        let mode = match r.below(20) {
+            0..=9 => 0,
+            10..=12 => 1,
+            13..=15 => 2,
+            _ => 3,
+        };
         let start = random_seq(&mut r, alphabet, 8);
-        let mut lines = vec![format!("{} {p} {q} {b} {}", if is_for { "initf" } else { "init" }, show(&start))];
-        let mut tags: Vec<&str> = vec![if is_for { "for" } else { "keyed" }];
-        if b > 1 {
-            tags.push("multi-node");
+        let mut tags: Vec<&str> = vec![];
+        let (shape, unmounted_start) = match mode {
+            0 => {
+                let s = *r.pick(FLAT);
+                tags.push("keyed");
+                tags.push(s.1);
+                (s.0.to_string(), r.chance(1, 5))
+            }
+            1 => {
+                tags.push("keyed");
+                tags.push("nested");
+                ("n".to_string(), r.chance(1, 6))
+            }
+            2 => {
+                tags.push("for");
+                (r.range(1, 3).to_string(), false)
+            }
+            _ => {
+                tags.push("store");
+                (r.range(1, 3).to_string(), false)
+            }
+        };
+        let init = match (mode, unmounted_start) {
+            (2, _) => "initf",
+            (3, _) => "inits",
+            (_, true) => "initu",
+            _ => "init",
+        };
+        if unmounted_start {
+            tags.push("unmounted-start");
         }
         if q > 0 {
             tags.push("post-siblings");
         }
+        let mut lines = vec![format!("{init} {p} {q} {shape} {}", show(&start))];
         let mut cur = start;
         let mut post = q;
-        for _ in 0..r.range(1, 6) {
-            if !is_for && r.chance(1, 10) {
+        let mut is_mounted = !unmounted_start;
+        // shape `n`: the inner key sequences
+        let mut inner: HashMap<Key, Vec<Key>> = cur.iter().map(|k| (*k, vec![0, 1])).collect();
+        for _ in 0..r.range(1, 7) {
+            let keyed = mode <= 1;
+            if keyed && r.chance(1, 10) {
                 lines.push("sib".into());
                 tags.push("sib");
-            } else if !is_for && r.chance(1, 12) {
+            } else if keyed && r.chance(1, 7) {
+                // unmount / mount before a following sibling / both
                 let j = r.below(post + 2);
-                if j > post {
-                    lines.push("remount e".into());
-                    post = 0;
-                } else {
-                    lines.push(format!("remount {j}"));
-                    post -= j;
+                let at = if j > post { "e".to_string() } else { j.to_string() };
+                let moved = if j > post { post } else { j };
+                match (is_mounted, r.below(3)) {
+                    (true, 0) => {
+                        lines.push("unmount".into());
+                        is_mounted = false;
+                        tags.push("unmount");
+                    }
+                    (false, _) => {
+                        lines.push(format!("mount {at}"));
+                        post -= moved;
+                        is_mounted = true;
+                        tags.push("mount-anchor");
+                    }
+                    _ => {
+                        lines.push(format!("remount {at}"));
+                        post -= moved;
+                        tags.push("remount");
+                    }
                 }
-                tags.push("remount");
+            } else if mode == 1 && !cur.is_empty() && r.chance(1, 2) {
+                let o = *r.pick(&cur);
+                let ik = inner.get(&o).cloned().unwrap_or_default();
+                let (next, _) = mutate(&mut r, &ik, 6);
+                lines.push(format!("inner {o} {}", show(&next)));
+                inner.insert(o, next);
+                tags.push("inner-update");
+            } else if mode == 3 && !cur.is_empty() && r.chance(1, 4) {
+                let k = *r.pick(&cur);
+                lines.push(format!("label {k} {}", r.below(100)));
+                tags.push("label");
             } else {
                 let (next, tag) = mutate(&mut r, &cur, alphabet);
-                lines.push(format!("update {}", show(&next)));
+                let cmd = if mode == 3 && r.chance(1, 3) { "updset" } else { "update" };
+                lines.push(format!("{cmd} {}", show(&next)));
                 tags.push(tag);
+                if !is_mounted {
+                    tags.push("unmounted-update");
+                }
+                for k in &next {
+                    if !cur.contains(k) {
+                        inner.insert(*k, vec![0, 1]);
+                    }
+                }
                 cur = next;
             }
         }
-        // run the history here to tag the ones that leave the DOM mis-ordered (known-finding class)
+        // run the history here to tag the ones that end in a known-finding class
         {
             let mut sess: Option<Session> = None;
-            if lines.iter().any(|l| op(&mut sess, l).contains("## fail")) {
+            let outs: Vec<String> = lines.iter().map(|l| op(&mut sess, l)).collect();
+            if outs.iter().any(|o| o.contains("## fail dom-error")) {
+                tags.push("stale-parent");
+            } else if outs.iter().any(|o| o.contains("## fail")) {
                 tags.push("dom-order-broken");
             }
         }
